@@ -57,8 +57,9 @@ def run(tier, seed, replay=None):
             log("note: the pre-fix arithmetic (DevCumulativeAck) no longer violates the model's invariants?")
         import os
         scen = [scenario(rnd, i) for i in range(48 if thorough else 8)]
-        if thorough or os.environ.get("VERIF_C08_REFUSE"):
+        if True:
             # the source refuses the first re-PSYNC (-LOADING): the tool backs off 30 s, then must ask for the very same byte
+            # (one such run in the quick tier too: it runs beside the others and decides the wall time, about a minute)
             for j in range(3 if thorough else 1):
                 s = scenario(rnd, 1000 + j)
                 s.update({"drops": [5 + j], "refuse": 1, "idles": [2], "commands": 20, "budget_ms": 80000, "resume_at": 0})
@@ -107,6 +108,6 @@ def run(tier, seed, replay=None):
            "exhaustive": False, "checker_cmd": "; ".join(cmds)}
     vlib.write_evidence(PID, tier, seed, "model_checking", cov, time.time() - t0, len(verdict.violations),
                         ["real wall-clock periods (ACK 1 s, reconnect sleep 1 s): 5-9 s per run, runs in parallel processes",
-                         "a refused re-PSYNC (30 s back-off in the tool) is not exercised",
+
                          "the source closes the connection gracefully after its last write, so all written bytes are delivered"])
     return rc
